@@ -120,7 +120,26 @@ def run(tier):
                   exhaustive=True)
 
 
+def mapping_roles(A):
+    """idle / command / emit state numbers from the transition table, or None when the life-cycle is not there."""
+    op = oracle.OPCODES
+    def target(frm, w):
+        t = None
+        for f, to, wi in A.rows:
+            if f == frm and wi == w:
+                t = to
+        return t
+    cmd = target(A.initial, op['discover'])
+    if cmd is None or cmd == A.initial:
+        return None
+    em = target(cmd, op['emit'])
+    if em is None or em in (A.initial, cmd):
+        return None
+    return {'idle': A.initial, 'command': cmd, 'emit': em}
+
+
 def tick_checks(rep, prog, A, roles):
+    from .. import mem as mem_
     ix = prog.unit(AUTOMATA_UNIT)
     for f in ('automata_tick', 'mapping_reset_inactive_timeout', 'session_table_clear', 'mapping_reset_charge'):
         if f not in ix.functions:
@@ -182,6 +201,12 @@ def tick_checks(rep, prog, A, roles):
                 rep.check(cs.const() == s, 'R14.5', '%s|tick-quiet' % role,
                           'a tick on which the 30 s inactivity deadline has not expired moves the mapping engine from %s to state %s: only frames (and that deadline) may move it'
                           % (role, cs), function='automata_tick')
+                # ... and the armed deadline itself survives the tick (whatever else this tick does - charge timeout, Hello pacing):
+                # a tick that disarms it leaves a silent session open for ever
+                dl = s2.canon(mem_.load_scalar(s2, s2.objs['in:mstate'], C(mrec.field('inactive_timeout_ts')[1]), ix.parse_type('unsigned long long')))
+                rep.check(s2.same(dl, D), 'R14.5', '%s|tick-keeps-deadline' % role,
+                          'a tick on which the armed 30 s inactivity deadline has not expired leaves it as %s: the silence of the mapper is no longer timed and its session never ends'
+                          % short(dl), function='automata_tick')
                 continue
             fired += 1
             a2 = s2.objs[A.oid]
